@@ -57,8 +57,11 @@ impl tower::Service<Request<Bytes>> for HoldSvc {
     fn call(&mut self, req: Request<Bytes>) -> Self::Future {
         let held = if self.hold_ref { req.extensions().get::<NetworkRef>().and_then(|r| r.upgrade()) } else { None };
         let delay: u64 = req.headers().get("x-delay-ms").and_then(|v| v.parse().ok()).unwrap_or(0);
+        let hold: u64 = req.headers().get("x-hold-ms").and_then(|v| v.parse().ok()).unwrap_or(0);
         self.started.fetch_add(1, Ordering::SeqCst);
         Box::pin(async move {
+            // a CPU-bound stretch: the task running this handler occupies its worker thread
+            hold_current_task(Duration::from_millis(hold));
             tokio::time::sleep(Duration::from_millis(delay)).await;
             drop(held);
             Ok(Response::new(req.into_body()))
@@ -102,6 +105,7 @@ fn run(input: RunInput) -> ScenFuture {
             let plan: PlanFn = Arc::new(|req: &Request<Bytes>| Plan {
                 delay: Duration::from_millis(req.headers().get("x-delay-ms").and_then(|v| v.parse().ok()).unwrap_or(0)),
                 response: Response::new(req.body().clone()),
+                hold: Duration::from_millis(req.headers().get("x-hold-ms").and_then(|v| v.parse().ok()).unwrap_or(0)),
             });
             let p = Arc::new(w.start_node(w.spec(i as u8 + 2, cfg.clone()), Svc::new(&w, plan)).unwrap());
             let log: Arc<Mutex<Vec<(u64, PeerEvent)>>> = Default::default();
@@ -158,6 +162,8 @@ fn run(input: RunInput) -> ScenFuture {
             });
         };
         let mut mix = Vec::new();
+        let cpu_bound = w.flag("cpu_bound_handlers", 0.3);
+        let mut max_hold_ms = 0u64;
         if let Some(n0) = net() {
             // RPCs S -> peers with sleeping remote handlers
             for _ in 0..r.gen_range(0..4) {
@@ -169,12 +175,18 @@ fn run(input: RunInput) -> ScenFuture {
                     ph.rpc(Request::new(Bytes::from_static(b"o")).with_header("x-delay-ms", "60000")).await.map(|_| ()).map_err(|e| format!("{e:#}"))
                 }));
             }
-            // RPCs peers -> S with sleeping local handlers
+            // RPCs peers -> S with sleeping local handlers, some of them CPU-bound for a while (the
+            // task that runs them can neither be polled nor dropped before that is over)
             for _ in 0..r.gen_range(0..4) {
                 let p = peers[r.gen_range(0..n_peers)].clone();
-                mix.push("rpc-in");
+                let hold_ms: u64 = if cpu_bound && r.gen_bool(0.6) { r.gen_range(20..1_500) } else { 0 };
+                max_hold_ms = max_hold_ms.max(hold_ms);
+                mix.push(if hold_ms > 0 { "rpc-in-cpu-bound" } else { "rpc-in" });
+                if hold_ms > 0 {
+                    w.probe("handler-cpu-bound-at-shutdown");
+                }
                 track("rpc-in".into(), Box::pin(async move {
-                    p.net.rpc(s_id, Request::new(Bytes::from_static(b"i")).with_header("x-delay-ms", "60000")).await.map(|_| ()).map_err(|e| format!("{e:#}"))
+                    p.net.rpc(s_id, Request::new(Bytes::from_static(b"i")).with_header("x-delay-ms", "60000").with_header("x-hold-ms", hold_ms.to_string())).await.map(|_| ()).map_err(|e| format!("{e:#}"))
                 }));
             }
             // explicit dials to dead addresses
@@ -207,7 +219,9 @@ fn run(input: RunInput) -> ScenFuture {
         w.mark_overlap();
         let mixdesc = mix.join("+");
         let t_shutdown = w.now_ns();
-        let bound_ns = (idle_wait_ms + 2 * lat_max / 1000 + 100) * 1_000_000;
+        // (a handler that does not yield cannot be cancelled before it does: that time is the
+        // application's, not the network's)
+        let bound_ns = (idle_wait_ms + 2 * lat_max / 1000 + 100 + max_hold_ms) * 1_000_000;
         let mut shutdown_result: Option<Result<(), String>> = None;
         let mut desc = String::new();
         match mode {
